@@ -136,6 +136,13 @@ func parseMap(dec *msgpack.Decoder, r *bytes.Reader, total int) (*Skeleton, erro
 	if err != nil {
 		return nil, wrapInvalid(err)
 	}
+	// The count comes from the blob. Every entry takes at least two bytes (key
+	// and value), so a count the rest of the blob cannot hold is a lie - and it
+	// must not size an allocation (0xdf 0xff 0xff 0xff 0xff would ask for ~100 GB,
+	// an out-of-memory fatal error no recover() can catch).
+	if n < 0 || n > r.Len()/2 {
+		return nil, fmt.Errorf("%w: map announces %d entries with %d bytes left", ErrInvalidMsgpack, n, r.Len())
+	}
 	skel := &Skeleton{Kind: KindMap, MapFields: make([]MapField, 0, n)}
 	for i := 0; i < n; i++ {
 		// V1: keys must be msgpack strings.
@@ -163,6 +170,10 @@ func parseArray(dec *msgpack.Decoder, r *bytes.Reader, total int) (*Skeleton, er
 	n, err := dec.DecodeArrayLen()
 	if err != nil {
 		return nil, wrapInvalid(err)
+	}
+	// Same as for maps: an item takes at least one byte.
+	if n < 0 || n > r.Len() {
+		return nil, fmt.Errorf("%w: array announces %d items with %d bytes left", ErrInvalidMsgpack, n, r.Len())
 	}
 	skel := &Skeleton{Kind: KindArray, ArrayItems: make([]*Skeleton, 0, n)}
 	for i := 0; i < n; i++ {
